@@ -146,19 +146,19 @@ func writerEvents(c *Ctx, fn *ssa.Function) []wireEv {
 			case *ssa.Call:
 				switch CalleeName(&x.Call) {
 				case qwAppendVarint:
-					evs = append(evs, wireEv{"v", in, x.Call.Args[1]})
+					evs = append(evs, wireEv{"v", in, BaselineArgs(&x.Call)[1]})
 				case qwAppendVarintBytes:
-					evs = append(evs, wireEv{"vraw", in, x.Call.Args[1]})
+					evs = append(evs, wireEv{"vraw", in, BaselineArgs(&x.Call)[1]})
 				case qwAppendUint8Bytes:
-					evs = append(evs, wireEv{"u8raw", in, x.Call.Args[1]})
+					evs = append(evs, wireEv{"u8raw", in, BaselineArgs(&x.Call)[1]})
 				case "builtin:append":
-					if Term(x.Call.Args[0]) != "$r.b" {
+					if Term(BaselineArgs(&x.Call)[0]) != "$r.b" {
 						continue
 					}
-					if al, ok := isVarargs(x.Call.Args[1]); ok {
+					if al, ok := isVarargs(BaselineArgs(&x.Call)[1]); ok {
 						evs = append(evs, wireEv{"u8", in, varargVal(al)})
 					} else {
-						evs = append(evs, wireEv{"raw", in, x.Call.Args[1]})
+						evs = append(evs, wireEv{"raw", in, BaselineArgs(&x.Call)[1]})
 					}
 				}
 			case *ssa.Store:
@@ -276,7 +276,7 @@ func readerFor(c *Ctx, name string) (string, *ssa.Function) {
 		for _, b := range fn.Blocks {
 			for _, in := range b.Instrs {
 				if call, ok := in.(*ssa.Call); ok {
-					if callee := call.Call.StaticCallee(); callee != nil && strings.HasPrefix(FnName(callee), "quic.consume") && len(call.Call.Args) == 1 && Term(call.Call.Args[0]) == "$0" {
+					if callee := call.Call.StaticCallee(); callee != nil && strings.HasPrefix(FnName(callee), "quic.consume") && len(BaselineArgs(&call.Call)) == 1 && Term(BaselineArgs(&call.Call)[0]) == "$0" {
 						// results must be returned unchanged
 						okFwd := true
 						for _, r := range Returns().F(c.P, fn) {
@@ -390,7 +390,7 @@ func c28Frames(c *Ctx) {
 func resultFrom(rv ssa.Value, ev wireEv) bool {
 	call := ev.val.(*ssa.Call)
 	if CalleeName(&call.Call) == "builtin:copy" {
-		dst := XRootAlloc(call.Call.Args[0])
+		dst := XRootAlloc(BaselineArgs(&call.Call)[0])
 		return dst != nil && XRootAlloc(rv) == dst
 	}
 	return DependsOn(rv, func(v ssa.Value) bool {
@@ -459,7 +459,7 @@ func c28Stream(c *Ctx) {
 			call := e.In.(*ssa.Call)
 			switch e.On {
 			case "builtin:append":
-				if al, ok := isVarargs(call.Call.Args[1]); ok && tval == nil && Term(call.Call.Args[0]) == "$r.b" {
+				if al, ok := isVarargs(BaselineArgs(&call.Call)[1]); ok && tval == nil && Term(BaselineArgs(&call.Call)[0]) == "$r.b" {
 					tval = varargVal(al)
 				}
 			case qwAppendVarint:
@@ -697,7 +697,7 @@ func c28TypeMaps(c *Ctx) {
 			n++
 			for _, e := range x.Events {
 				if e.Kind == "call" && e.On == "builtin:append" {
-					if al, ok := isVarargs(e.In.(*ssa.Call).Call.Args[1]); ok {
+					if al, ok := isVarargs(BaselineArgs(&e.In.(*ssa.Call).Call)[1]); ok {
 						t, okc := evalBits(x, varargVal(al))
 						want := ku
 						if x.Holds(isBidi) {
@@ -1107,7 +1107,7 @@ func c28NonEmpty(c *Ctx) {
 				memo[k] = fmt.Sprintf("%s is used as a value in %s", FnName(fn), r.Fn)
 				return memo[k]
 			}
-			arg := ci.Common().Args[idx]
+			arg := BaselineArgs(ci.Common())[idx]
 			if par, ok := arg.(*ssa.Parameter); ok {
 				caller := par.Parent()
 				pi := -1
@@ -1532,7 +1532,7 @@ func c28TransportParams(c *Ctx) {
 	// the id and the value of every parameter are read with their length results tested
 	// (reads inside the value are covered by the trailing-bytes test: a negative length never equals len(val))
 	lengthChecked(c, un, acc, func(call *ssa.Call) bool {
-		return !DependsOn(call.Call.Args[0], XResultOf(0, qwConsumeVarintByt))
+		return !DependsOn(BaselineArgs(&call.Call)[0], XResultOf(0, qwConsumeVarintByt))
 	})
 	// the loop continues only through the trailing-bytes test
 	{
@@ -1540,7 +1540,7 @@ func c28TransportParams(c *Ctx) {
 		for _, b := range u.Blocks {
 			for _, in := range b.Instrs {
 				if call, ok := in.(*ssa.Call); ok && CalleeName(&call.Call) == qwConsumeVarint {
-					if ph, ok := call.Call.Args[0].(*ssa.Phi); ok && hdr == nil {
+					if ph, ok := BaselineArgs(&call.Call)[0].(*ssa.Phi); ok && hdr == nil {
 						hdr = ph.Block()
 					}
 				}
@@ -1563,7 +1563,7 @@ func c28TransportParams(c *Ctx) {
 				good := false
 				if isB && (bo.Op == token.NEQ || bo.Op == token.EQL) {
 					for _, side := range [][2]ssa.Value{{bo.X, bo.Y}, {bo.Y, bo.X}} {
-						if call, isC := side[1].(*ssa.Call); isC && CalleeName(&call.Call) == "builtin:len" && DependsOn(call.Call.Args[0], XResultOf(0, qwConsumeVarintByt)) {
+						if call, isC := side[1].(*ssa.Call); isC && CalleeName(&call.Call) == "builtin:len" && DependsOn(BaselineArgs(&call.Call)[0], XResultOf(0, qwConsumeVarintByt)) {
 							if _, isPhi := side[0].(*ssa.Phi); isPhi {
 								// the loop continues on the equal edge
 								eqIdx := 0
